@@ -206,7 +206,7 @@ Proof. exact auto_is_explicit. Qed.
 (* COMPOSED with the generated / proved kernels of C03 / C04 (oracles_of_model: Model/Cfg_Composed.v): each "auto" field IS the
    value those models compute on the setup built so far -- the crystal angle is C04's optimum_theta of the composed cost (and lies
    in [0, pi/2]); an accepted automatic period is C04's optimum_poling_period (0 < |period| <= L); the automatic idler is C03's
-   optimum_idler of the final signal / pump / crystal / poling. *)
+   optimum_idler of the final signal / pump / crystal / poling, where its emission angle is defined (arg > 0, |val| <= 1). *)
 Theorem C16_auto_is_explicit_composed : forall index_of snell_inv sd_theta sd_period U rj (c : spdc_cfg R) s nf,
   try_as_spdc_steps R_ops U (oracles_of_model index_of snell_inv sd_theta sd_period) GA.opp_min_period rj c = Ok (s, nf) ->
   (cc_theta_deg (c_crystal c) = Auto ->
@@ -219,6 +219,7 @@ Theorem C16_auto_is_explicit_composed : forall index_of snell_inv sd_theta sd_pe
                  (cs_length (cfg_cs0 R_ops c)) = MA.AutoOk v /\
                s_pp s = poling_new R_ops v (apod_of_cfg R_ops a) /\ 0 < Rabs v <= cs_length (cfg_cs0 R_ops c)) /\
   (c_idler c = Auto -> beam_wf (s_signal s) -> 0 < b_wavelength (s_pump s) ->
+     idler_defined index_of (s_signal s) (s_pump s) (s_crystal s) (ipp (s_pp s)) = true ->
      exists i, MI.optimum_idler (index_of (s_crystal s)) (ipm (cs_pm (s_crystal s))) (cs_counter (s_crystal s))
                  (ib (s_signal s)) (ipump (s_pump s)) (ipp (s_pp s)) = Some i /\ ib (s_idler s) = i).
 Proof. exact auto_is_explicit_composed. Qed.
